@@ -31,7 +31,12 @@ def corpus(ctx: Ctx):
 
 def gen_cases(ctx: Ctx):
     cases = []
-    for n, (roots, blob) in enumerate(corpus(ctx)):
+    corp = corpus(ctx)
+    # structure-aware field substitutions (consistent lengths), with fields of a second valid blob carrying another plaintext
+    other4 = hostile.valid_blob(hid=4, pos=(361, 17, 13), data=b"ANOTHER plaintext, protected separately", seed=99)
+    for m in hostile.field_substitutions(corp[0][1], other4):
+        cases.append([corp[0][0], m])
+    for n, (roots, blob) in enumerate(corp):
         step = 1 if ctx.thorough else (3 if n == 0 else 17)
         k = 0
         cases.append([roots, blob])
